@@ -21,13 +21,15 @@
    the sync section and the round it is in has not been classified yet (`dstate_of`).  Forward simulation
    (`protocol_refines_determinism`), hence C04's rounds_as_intended speaks about Protocol's ghost `rounds`
    (`rounds_link`); with C05's termination and C04's schedule_independent: every maximal run of the multi-file
-   pipeline terminates AND yields the same archive parts (`terminating_and_deterministic`).
+   pipeline terminates AND yields the same archive parts (`terminating_and_deterministic`; single-file mode:
+   `singlefile_match`, `terminating_and_deterministic_singlefile`, section 2.4).
    Names of Determinism.v are written qualified (both models define task, step, run, init, contig). *)
 From Coq Require Import Permutation.
 From Ragc Require Import Mach.
 From Ragc Require Queue.
 From Ragc Require Import Protocol Protocol_proofs ConcLink ConcLink_proofs ConcLinkR.
-From Ragc Require Determinism Determinism_proto Determinism_gen ConcLink_rounds Consts_determinism.
+From Ragc Require Determinism Determinism_proto Determinism_gen Determinism_proofs ConcLink_rounds ConcLink_single
+  Consts_determinism.
 Open Scope N_scope.
 
 (* ---- 1.0 the priority projection preserves and reflects ContigTask's order *)
@@ -255,15 +257,7 @@ Proof.
 Qed.
 Print Assumptions terminating_and_deterministic.
 
-(* single-file mode (compile_calls true pack vs Determinism.singlefile_script) is NOT linked: rounds_link and
-   protocol_refines_determinism are mode independent and apply to it, what is missing is the script correspondence
-     singlefile_match_partial (not proved) :
-       contiguous [] (ref ++ rest) -> priority bound ->
-       script_match n (compile_calls true pack (map push_call ref ++ [CDrain if rest <> []] ++ map push_call rest))
-                      (Determinism.singlefile_script Determinism.current_rule n pack ref rest)
-   i.e. the compile_go true / push_all true correspondence through the pack-boundary branch (TokenBlock curp no ::
-   Contig sz newp no with the lowered next_priority vs repeat (PPush tok) n ++ [PPush ctg] with pr_lower_next and
-   wrap_i32 on cur - 1 and newp - 1), plus nblocks = sf_rounds. *)
+(* single-file mode: section 2.4 at the end of this file *)
 
 (* ---- non-vacuity of part 2: two files (2 + 2 contigs), 2 workers and capacity 5 (every contig of 9 is oversize)
    versus 3 workers and capacity 1000: both Protocol runs (the deterministic scheduler of Protocol_proofs) reach a
@@ -294,6 +288,97 @@ Proof.
   split; [exact (ConcLink_rounds.multifile_match_proof 2 1 first2 rest2 B)|].
   split; [apply Determinism_gen.multifile_wf; [repeat constructor | exact B]|].
   split; [vm_compute; reflexivity|].
+  split; [apply auto_run_reachable, reach_init|]. split; [apply finalb_final; vm_compute; reflexivity|].
+  split; [apply auto_run_reachable, reach_init|]. split; [apply finalb_final; vm_compute; reflexivity|].
+  repeat split; vm_compute; reflexivity.
+Qed.
+
+(* ---- 2.4 single-file mode (one PanSN file; token blocks at pack boundaries inside push; drain() once when the
+   second sample starts).  The scripts of the two models correspond under the CURRENT pack-boundary rule (tokens carry
+   the pre-decrement priority, next_priority lowered below the decremented sample priority), and the number of token
+   blocks of the Protocol script is the number of rounds C04 counts.  Purely syntactic: only the no-wrap bound is
+   needed (Determinism.push_one computes in wrapping i32, Protocol.compile_go in Z). *)
+Example sf_calls_unfolded : forall ref rest, sf_calls ref rest =
+  map push_call ref ++ (match rest with [] => [] | _ :: _ => [CDrain] end) ++ map push_call rest.
+Proof. reflexivity. Qed.
+
+Theorem singlefile_match : forall (n : nat) (pack : N) (ref rest : list Determinism.input),
+  (2 * Z.of_nat (length (ref ++ rest)) + 4 < Consts_determinism.det_prio_start - 1000000)%Z ->
+  script_match n (compile_calls true pack (sf_calls ref rest))
+               (Determinism.singlefile_script Determinism.current_rule n pack ref rest) /\
+  nblocks (compile_calls true pack (sf_calls ref rest)) = Determinism_gen.sf_rounds n pack ref rest.
+Proof. exact ConcLink_single.singlefile_match_proof. Qed.
+Print Assumptions singlefile_match.
+
+(* composition of C05 and C04 for single-file mode: hypotheses of C04.singlefile_deterministic (samples contiguous,
+   (sample, contig) keys unique, priority bound); same pack size on both sides (it decides the rounds), any two thread
+   counts, capacities, interleavings, claim interleavings and finalize orders *)
+Theorem terminating_and_deterministic_singlefile :
+  forall (G Buf Res Part : Type) (segment : Determinism.contig -> list N)
+         (classify : G -> list (Determinism.skey * N) -> G * list Buf)
+         (flushf : Buf -> Buf * list (N * Part) * Res)
+         (res_gid : Res -> N) (commit : G -> list Res -> list Buf -> G)
+         (fin_seq : G -> G * list (N * Part)) (fin_packs meta_parts : G -> list (N * Part)),
+  (forall g l i j oi oj sp sq, i <> j ->
+      nth_error (map flushf (snd (classify g l))) i = Some oi ->
+      nth_error (map flushf (snd (classify g l))) j = Some oj ->
+      In sp (snd (fst oi)) -> In sq (snd (fst oj)) -> fst sp <> fst sq) ->
+  (forall g, NoDup (map fst (fin_packs g))) ->
+  forall (n n' : nat) (capa capa' pack : N) (ref rest : list Determinism.input),
+  (0 < n)%nat -> (0 < n')%nat ->
+  Determinism_gen.contiguous [] (ref ++ rest) ->
+  (2 * Z.of_nat (length (ref ++ rest)) + 4 < Consts_determinism.det_prio_start - 1000000)%Z ->
+  NoDup (map (fun inp : Determinism.input => fst (fst inp)) (ref ++ rest)) ->
+  let script := compile_calls true pack (sf_calls ref rest) in
+  let pa := mkParams n capa false in
+  let pa' := mkParams n' capa' false in
+  let sc := Determinism.singlefile_script Determinism.current_rule n pack ref rest in
+  let sc' := Determinism.singlefile_script Determinism.current_rule n' pack ref rest in
+  (forall s, reachable pa script s -> ends_final pa s) /\
+  (forall s', reachable pa' script s' -> ends_final pa' s') /\
+  (forall s s' cl cl' s3 s3' g0,
+     reachable pa script s -> final s -> reachable pa' script s' -> final s' ->
+     Determinism.output G Buf Res Part segment classify flushf res_gid commit fin_seq fin_packs meta_parts g0
+       (Determinism.attach (proto_rounds sc s) cl) s3
+     = Determinism.output G Buf Res Part segment classify flushf res_gid commit fin_seq fin_packs meta_parts g0
+       (Determinism.attach (proto_rounds sc' s') cl') s3').
+Proof.
+  intros G Buf Res Part segment classify flushf res_gid commit fin_seq fin_packs meta_parts H1 H2.
+  exact (ConcLink_single.terminating_and_deterministic_singlefile_proof G Buf Res Part segment classify flushf res_gid
+           commit fin_seq fin_packs meta_parts H1 H2).
+Qed.
+Print Assumptions terminating_and_deterministic_singlefile.
+
+(* non-vacuity: C04's witness input (samples of 1, 5 and 2 contigs, pack size 2: the input on which the rule before
+   /repo 445c73a gave two different archives), 1 worker / capacity 1000 versus 3 workers / capacity 1 (every contig
+   oversize): both Protocol runs reach a final state with the same 5 rounds *)
+Definition script3 : list cmd := compile_calls true 2 (sf_calls Determinism_proofs.wit_ref Determinism_proofs.wit_rest).
+Definition sc3 (n : nat) : list Determinism.pact :=
+  Determinism.singlefile_script Determinism.current_rule n 2 Determinism_proofs.wit_ref Determinism_proofs.wit_rest.
+
+Example singlefile_nonvacuous :
+  let pa := mkParams 1 1000 false in let pa' := mkParams 3 1 false in
+  let s := auto_run pa 3000 (init pa script3) in let s' := auto_run pa' 3000 (init pa' script3) in
+  Determinism_gen.contiguous [] (Determinism_proofs.wit_ref ++ Determinism_proofs.wit_rest) /\
+  (2 * Z.of_nat (length (Determinism_proofs.wit_ref ++ Determinism_proofs.wit_rest)) + 4
+     < Consts_determinism.det_prio_start - 1000000)%Z /\
+  NoDup (map (fun inp : Determinism.input => fst (fst inp)) (Determinism_proofs.wit_ref ++ Determinism_proofs.wit_rest)) /\
+  script3 = [Contig 7 2147483647%Z 0; Drain; TokenBlock 2147483646%Z 1; Contig 5 2147483645%Z 1;
+             Contig 5 2147483645%Z 2; TokenBlock 2147483645%Z 3; Contig 5 2147483644%Z 3; Contig 5 2147483644%Z 4;
+             TokenBlock 2147483644%Z 5; Contig 5 2147483643%Z 5; Contig 5 2147483642%Z 6;
+             TokenBlock 2147483642%Z 7; Contig 5 2147483641%Z 7] /\
+  nblocks script3 = 5%nat /\
+  reachable pa script3 s /\ final s /\ reachable pa' script3 s' /\ final s' /\
+  rounds s = [[11]; [9; 8]; [6; 5]; [3; 2]; [0]] /\ rounds s' = [[19]; [15; 14]; [10; 9]; [5; 4]; [0]] /\
+  map (map (fun sq => Determinism.t_key (task_at (sc3 1) sq))) (rev (rounds s))
+    = [[(0, 0)]; [(1, 1); (1, 0)]; [(1, 3); (1, 2)]; [(2, 0); (1, 4)]; [(2, 1)]] /\
+  map (map (fun sq => Determinism.t_key (task_at (sc3 3) sq))) (rev (rounds s'))
+    = [[(0, 0)]; [(1, 1); (1, 0)]; [(1, 3); (1, 2)]; [(2, 0); (1, 4)]; [(2, 1)]].
+Proof.
+  cbv zeta. split; [exact (proj1 Determinism_proofs.singlefile_old_rule_refuted_proof)|].
+  split; [vm_compute; reflexivity|]. split.
+  { cbn. repeat constructor; cbn; intuition discriminate. }
+  split; [vm_compute; reflexivity|]. split; [vm_compute; reflexivity|].
   split; [apply auto_run_reachable, reach_init|]. split; [apply finalb_final; vm_compute; reflexivity|].
   split; [apply auto_run_reachable, reach_init|]. split; [apply finalb_final; vm_compute; reflexivity|].
   repeat split; vm_compute; reflexivity.
